@@ -291,6 +291,7 @@ inductive Clause where
   | c01Panic (n : Nat)
   | c01Blocked (n : Nat)
   | c01Late (n : Nat) (r : RTok)
+  | c01RegAfterRx (oc : List Nat)
   | c02Twice (r : Nat)
   | c02NotifAnswered (r : Nat)
   | c03BeforeSync (j i : Nat)
@@ -393,6 +394,11 @@ def chkLate (m : Mon) (o : Obs) : Option Clause :=
     | some r => if r = .closed || (r = .ctx && m.ctxd.contains n) then none else some (.c01Late n r)
     | none => none
 
+/-- C01: once the reader has failed (its exit section RX ran) no outgoing call may be registered:
+nothing can complete it any more (a call started after the connection broke must fail at once). -/
+def chkRegAfterRx (m : Mon) (o : Obs) : Option Clause :=
+  if m.rxSeen && !o.oc.isEmpty then some (.c01RegAfterRx o.oc) else none
+
 /-- C02: never two responses for one request, never a response for a notification. -/
 def chkAnswer (m : Mon) : Option Clause :=
   (m.reqs.zipIdx 0).findSome? fun (q, r) =>
@@ -458,7 +464,7 @@ def chkLateDispatch (m : Mon) (o : Obs) : Option Clause :=
 
 /-- All checks, first violated clause. -/
 def chkAll (m : Mon) (p o : Obs) (e : Ev) : Option Clause :=
-  chkFinal p o <|> chkOwn m o <|> chkPanic o <|> chkBlocked m o <|> chkLate m o
+  chkFinal p o <|> chkOwn m o <|> chkPanic o <|> chkBlocked m o <|> chkLate m o <|> chkRegAfterRx m o
   <|> chkAnswer m
   <|> chkOrder m p o
   <|> chkCancelX m p o <|> chkEv m p o e
